@@ -489,6 +489,28 @@ def suite_C10():
                 k += 1
                 cases.append(('cr%d' % k, 'reverse(%s)' % cexpr, '[%s]' % ', '.join(map(str, rest[::-1])), dict(kind='consumed stream', len=n, consumed=c, how=how, what='reverse')))
                 k += 1
+        # the accessor builtins agree with the index / slice expression they stand for (statement of C10), on every kind
+        for kind, expr, showel, showlist in kinds + [('stream', sexpr, None, None)]:
+            pys = py if kind != 'string' else [chr(97 + i) for i in range(n)]
+            for fn, ix in [('first', 0), ('second', 1), ('third', 2), ('last', -1)]:
+                try:
+                    exp = str(pys[ix])
+                except IndexError:
+                    exp = 'ERR'
+                cases.append(('ac%d' % k, '%s(%s)' % (fn, expr), exp, dict(kind=kind, len=n, accessor=fn)))
+                k += 1
+            forms = [('tail', 'tail(%s)' % expr, pys[1:]), ('butlast', 'butlast(%s)' % expr, pys[:-1])]
+            for m in list(range(-n - 2, n + 3)) + [2**62, -2**62]:
+                forms.append(('take', '(%s) take %s' % (expr, lit(m)), pys[:m]))
+                forms.append(('drop', '(%s) drop %s' % (expr, lit(m)), pys[m:]))
+            for fn, e, sl in forms:
+                if kind == 'string':
+                    cases.append(('as%d' % k, e, ''.join(sl), dict(kind=kind, len=n, accessor=fn)))
+                elif kind in ('list', 'stream'):
+                    cases.append(('as%d' % k, 'list(%s)' % e, '[%s]' % ', '.join(map(str, sl)), dict(kind=kind, len=n, accessor=fn)))
+                else:
+                    cases.append(('as%d' % k, 'list(%s)' % e, '[%s]' % ', '.join(map(str, sl)), dict(kind=kind, len=n, accessor=fn)))
+                k += 1
         for i in range(-2 * n - 1, 2 * n + 2):
             if n:
                 cases.append(('c%d' % k, '[%s] !%% %s' % (', '.join(map(str, py)), lit(i)), str(py[i % n]), dict(kind='list', len=n, cyclic_index=i)))
